@@ -93,6 +93,13 @@ const roleEnv = "VERIF_C39_ROLE"
 // ---- child role: a Go child that reports SIGTERM ------------------------------
 
 func childMain() {
+	if d := os.Getenv("VERIF_C39_DELAY"); d != "" {
+		// plain child: default signal dispositions, exits with the given code after the delay
+		ms, _ := strconv.Atoi(d)
+		code, _ := strconv.Atoi(os.Getenv("VERIF_C39_EXIT"))
+		time.Sleep(time.Duration(ms) * time.Millisecond)
+		os.Exit(code)
+	}
 	ch := make(chan os.Signal, 4)
 	signal.Notify(ch, syscall.SIGTERM)
 	logf := os.Getenv("VERIF_C39_TERMLOG")
@@ -197,6 +204,7 @@ func runCase(d desc) result {
 		pl := planOf(d, i)
 		var cmd *exec.Cmd
 		minLife := int64(0)
+		goExit := false
 		switch pl.Kind {
 		case "fail":
 			rec(logEv{K: "spawn", R: "error"})
@@ -208,11 +216,14 @@ func runCase(d desc) result {
 			rec(logEv{K: "spawn", R: "notstarted"})
 			return exec.Command("/bin/sh", "-c", "exit 0"), nil
 		case "exit":
-			script := fmt.Sprintf("exit %d", pl.Code)
+			// no delay: sh exits at once; with a delay: a Go child that sleeps itself (a shell would fork
+			// `sleep`, a grandchild that survives its parent and is none of prefork's business)
 			if pl.DelayMs > 0 {
-				script = fmt.Sprintf("sleep %d.%03d; exit %d", pl.DelayMs/1000, pl.DelayMs%1000, pl.Code)
+				cmd = exec.Command(self)
+				goExit = true
+			} else {
+				cmd = exec.Command("/bin/sh", "-c", fmt.Sprintf("exit %d", pl.Code))
 			}
-			cmd = exec.Command("/bin/sh", "-c", script)
 			minLife = int64(pl.DelayMs) * int64(time.Millisecond)
 		case "sleep":
 			cmd = exec.Command("/bin/sleep", "5")
@@ -225,6 +236,9 @@ func runCase(d desc) result {
 			return nil, errProducer
 		}
 		cmd.Env = append([]string(nil), env...)
+		if goExit {
+			cmd.Env = append(cmd.Env, roleEnv+"=child", fmt.Sprintf("VERIF_C39_EXIT=%d", pl.Code), fmt.Sprintf("VERIF_C39_DELAY=%d", pl.DelayMs))
+		}
 		if pl.Kind == "goterm" || pl.Kind == "gostubborn" {
 			cmd.Env = append(cmd.Env, roleEnv+"=child", "VERIF_C39_TERMLOG="+termlog)
 			if pl.Kind == "gostubborn" {
@@ -238,7 +252,11 @@ func runCase(d desc) result {
 		}
 		mu.Lock()
 		cmds = append(cmds, cmd)
-		res.Kids = append(res.Kids, kidRes{Pid: cmd.Process.Pid, Kind: pl.Kind, MinLife: minLife, TermSeen: -1})
+		kind := pl.Kind
+		if goExit {
+			kind = "exit-go"
+		}
+		res.Kids = append(res.Kids, kidRes{Pid: cmd.Process.Pid, Kind: kind, MinLife: minLife, TermSeen: -1})
 		mu.Unlock()
 		rec(logEv{K: "spawn", R: "started", Pid: cmd.Process.Pid, T0: t0})
 		return cmd, nil
@@ -826,7 +844,7 @@ func main() {
 		CorrOK:   "corr_ok",
 		PropOK:   "prop_ok",
 		Rule: "histories of the real prefork master (one process per history, GOMAXPROCS 1..3, RecoverThreshold -1..3, RecoverInterval 0/30/60 ms, grace 80..150 ms) " +
-			"driven through CommandProducer with real child processes (sh exit k after a delay, sleep, SIGTERM-ignoring sh, Go children that log SIGTERM) and faults " +
+			"driven through CommandProducer with real child processes (sh exit k, a Go child exiting k after a delay, sleep, SIGTERM-ignoring sh, Go children that log SIGTERM) and faults " +
 			"(producer error / nil / not-started command, OnChildSpawn and OnMasterReady error or panic at a chosen call); non-trivial = distinct (config, ending, exits processed, set of death causes)",
 		Corpus:   corpus,
 		Gen:      gen,
